@@ -8,6 +8,7 @@ pub mod irdump;
 pub mod probe;
 pub mod tokpat;
 pub mod wgpuval;
+pub mod overrides;
 
 use serde_json::{json, Value};
 use std::io::{BufRead, BufWriter, Write};
@@ -278,6 +279,13 @@ fn main() {
             }
         },
         // wgpu-core's shader interface validation as an oracle for the emitted layouts (see wgpuval.rs)
+        Some("overrides") if args.len() == 4 => match overrides::overrides(&args[2], &args[3]) {
+            Ok(()) => 0,
+            Err(e) => {
+                eprintln!("driver: {}", e);
+                1
+            }
+        },
         Some("wgpu") if args.len() == 4 => match wgpuval::wgpu(&args[2], &args[3]) {
             Ok(()) => 0,
             Err(e) => {
